@@ -1204,9 +1204,11 @@ def m_bytes_eq(engine, ctx, args, callee, frame):
 def m_into(engine, ctx, args, callee, frame):
     m = re.match(r"^<(.*) as Into<(.*)>>::into$", callee)
     src, dst = m.group(1), m.group(2)
-    fn = engine.program.resolve("<%s as From<%s>>::from" % (dst, src), frame.fn if frame else None)
+    target = "<%s as From<%s>>::from" % (dst, src)
+    fn = engine.program.resolve(target, frame.fn if frame else None)
     if fn is not None:
-        return engine.run_fn(fn, args)
+        g = engine.bind_generics(fn, target)       # impl<T> From<..> for X<T>: bind T from the printed type
+        return engine.run_fn(fn, args, g)
     if strip_generics(src) == strip_generics(dst):
         return args[0]
     if last_ident(src) == last_ident(dst) and last_ident(src) == "Error" and (src.endswith("error::Error") or dst.endswith("error::Error")):
@@ -1224,9 +1226,11 @@ def m_into(engine, ctx, args, callee, frame):
 def m_try_into(engine, ctx, args, callee, frame):
     m = re.match(r"^<(.*) as TryInto<(.*)>>::try_into$", callee)
     src, dst = m.group(1), m.group(2)
-    fn = engine.program.resolve("<%s as TryFrom<%s>>::try_from" % (dst, src), frame.fn if frame else None)
+    target = "<%s as TryFrom<%s>>::try_from" % (dst, src)
+    fn = engine.program.resolve(target, frame.fn if frame else None)
     if fn is not None:
-        return engine.run_fn(fn, args)
+        g = engine.bind_generics(fn, target)
+        return engine.run_fn(fn, args, g)
     si, di = int_type(src), int_type(dst)
     if si and di:
         return int_try_from(ctx, args[0], di)
@@ -2790,6 +2794,8 @@ def eq_formula(engine, a, b, bound=64):
                 anyc = b_or(anyc, b_and(eq_formula(engine, kx, ky, bound), eq_formula(engine, cx.v, cy.v, bound)))
             c = b_and(c, anyc)
         return c
+    if isinstance(a, FnItem) and isinstance(b, FnItem):
+        return a.name == b.name        # zero-sized values (PhantomData, fn items)
     if isinstance(a, Opaque) and isinstance(b, Opaque):
         if a.name != b.name:
             return False
